@@ -1,11 +1,12 @@
 ---- MODULE MCGooseCmd ----
 EXTENDS GooseCmd
-MCPkgs == {"good", "goodffi", "partial", "allbad", "tagged", "nested", "latebad", "earlybad", "cgotag"}
-MCClass == [p \in MCPkgs |-> CASE p = "partial" -> "partial" [] p = "earlybad" -> "partial" [] p = "allbad" -> "allbad" [] p = "latebad" -> "late-bad" [] OTHER -> "good"]
+MCPkgs == {"good", "goodffi", "partial", "allbad", "tagged", "nested", "latebad", "earlybad", "cgotag", "nofiles", "missing"}
+MCClass == [p \in MCPkgs |-> CASE p = "partial" -> "partial" [] p = "earlybad" -> "partial" [] p = "allbad" -> "allbad" [] p = "latebad" -> "late-bad" [] p \in {"nofiles", "missing"} -> "unloadable" [] OTHER -> "good"]
 MCPatterns == {<<"good">>, <<"partial">>, <<"allbad">>, <<"partial", "good">>, <<"allbad", "goodffi">>, <<"good", "partial">>,
                <<"goodffi">>, <<"tagged", "nested">>, <<"earlybad">>, <<"earlybad", "good">>, <<"nested", "earlybad">>, <<"cgotag", "good", "nested">>, <<"cgotag", "earlybad", "good", "goodffi", "tagged">>, <<"latebad">>, <<"latebad", "good">>, <<"goodffi", "latebad", "nested">>,
+               <<"good", "missing">>, <<"missing", "good">>, <<"nofiles", "good", "nested">>, <<"goodffi", "nofiles">>, <<"nofiles">>, <<"partial", "missing", "goodffi">>,
                <<"allbad", "cgotag", "earlybad", "good", "goodffi", "latebad", "nested", "partial", "tagged">>}
-SmallPkgs == {"good", "partial", "latebad"}
-SmallClass == [p \in SmallPkgs |-> CASE p = "partial" -> "partial" [] p = "latebad" -> "late-bad" [] OTHER -> "good"]
-SmallPatterns == {<<"good">>, <<"partial">>, <<"partial", "good">>, <<"latebad">>, <<"latebad", "good", "partial">>}
+SmallPkgs == {"good", "partial", "latebad", "missing"}
+SmallClass == [p \in SmallPkgs |-> CASE p = "partial" -> "partial" [] p = "latebad" -> "late-bad" [] p = "missing" -> "unloadable" [] OTHER -> "good"]
+SmallPatterns == {<<"missing", "good">>, <<"good">>, <<"partial">>, <<"partial", "good">>, <<"latebad">>, <<"latebad", "good", "partial">>}
 ====
